@@ -71,7 +71,8 @@ class Report:
                 new.append(v)
         for k, vs in seen_known.items():
             print("KNOWN-FINDING: property=%s %s -- %s (%d occurrence(s) this run)" % (self.pid, k, open_keys[k]["what"], len(vs)))
-        rdir = os.path.join(VERIF, "replays")
+        outbase = os.environ.get("VERIF_OUT", VERIF)      # (mutant evaluation redirects evidence/replays to a scratch directory)
+        rdir = os.path.join(outbase, "replays")
         os.makedirs(rdir, exist_ok=True)
         lines, seenk = [], set()
         for v in new:
@@ -91,8 +92,8 @@ class Report:
         cov["known_findings_seen"] = {k: len(vs) for k, vs in seen_known.items()}
         ev = {"property_id": self.pid, "tier": self.tier, "seed": _seed(), "level": self.level, "coverage": cov,
               "assumptions": self.assumptions, "wall_s": round(time.time() - self.t0, 2), "violations": len(new)}
-        os.makedirs(os.path.join(VERIF, "evidence"), exist_ok=True)
-        with open(os.path.join(VERIF, "evidence", self.pid + ".json"), "w") as f:
+        os.makedirs(os.path.join(outbase, "evidence"), exist_ok=True)
+        with open(os.path.join(outbase, "evidence", self.pid + ".json"), "w") as f:
             json.dump(ev, f, indent=1, default=str)
         for l in lines:
             print(l)
